@@ -344,7 +344,7 @@ pub fn run(ctx: &Ctx) -> i32 {
     let tier = ctx.tier;
     let h: i64 = ctx.opt_usize("iterations").map(|x| x as i64).unwrap_or(tier.pick(2, 3));
     let bound: usize = ctx.opt_usize("preemptions").unwrap_or(tier.pick(2, 4));
-    let budget = ctx.opt_usize("budget_s").map(|b| b as f64).unwrap_or(tier.pick(40.0, 2400.0));
+    let budget = ctx.opt_usize("budget_s").map(|b| b as f64).unwrap_or(tier.pick(600.0, 2400.0));
     let deadline = vclock::raw_now_s() + budget;
     // probe: fault-free default schedule, to enumerate each worker's fault opportunities
     let mut scenarios: Vec<Scenario> = vec![];
